@@ -12,18 +12,18 @@ def cmpSlots : List String := ["__eq__", "__ne__", "__lt__", "__le__", "__gt__",
 
 /-- C07 for one non-literal class: every truth route raises; every comparison with anything raises
 or returns a Nada value (never a Python value); comparisons used as conditions raise; the class is
-unhashable (no membership by hashing); a kind exists for the class. -/
+unhashable (no membership by hashing) and answers no membership test `probe in x`; a kind exists for the class. -/
 def classOblivious (t : ClassTable) (c : String) : Bool :=
   truthOf t c = .raises &&
   cmpSlots.all (fun s => others.all fun o => cmpOutcome t c s o ≠ .silent) &&
   cmpSlots.all (fun s => others.all fun o => cmpThenTruth t c s o = .raises) &&
-  hashOf t c = .raises && kindOf t c ≠ "missing"
+  hashOf t c = .raises && containsOf t c = .raises && kindOf t c ≠ "missing"
 
 /-- predictions for every class × route, for the cross-check against real executions -/
 def routes (t : ClassTable) : List (String × String × String × Outcome) :=
   (classes t).flatMap fun c =>
     [(c, "truth", "", truthOf t c), (c, "iter", "", iterOf t c), (c, "hash", "", hashOf t c),
-     (c, "reversed", "", reversedOf t c), (c, "indexwalk", "", indexWalkOf t c)] ++
+     (c, "reversed", "", reversedOf t c), (c, "indexwalk", "", indexWalkOf t c), (c, "contains", "", containsOf t c)] ++
     cmpSlots.flatMap fun s => others.flatMap fun o =>
       [(c, s, o, cmpOutcome t c s o), (c, s ++ "+truth", o, cmpThenTruth t c s o)]
 
